@@ -11,11 +11,17 @@ PID = "C02"
 class Gen2(M.Gen):
     """programs over the constructs of the property, with early exits at every syntactic position"""
 
-    def early_exit(self, d):
+    def early_exit(self, d, nest=2):
         r = self.rng
         k = r.randint(0, 4)
         if k == 0:
-            return E(Bin("exitWith", Un("if", self.boolean(min(d, 1))), Code(self.mark(), E(self.value_expr(0)))))
+            # the handler of exitWith may itself leave by throw / breakOut / another exitWith: the scope it ends is
+            # already marked as finished when the handler runs, its error handlers and scope name must still apply
+            if nest > 0 and r.random() < 0.45:
+                handler = Code(self.mark(), self.early_exit(d, nest - 1), self.mark())
+            else:
+                handler = Code(self.mark(), E(self.value_expr(0)))
+            return E(Bin("exitWith", Un("if", self.boolean(min(d, 1))), handler))
         if k == 1:
             return E(Bin("breakOut", self.num(0), S(r.choice(["s1", "s2"]))))
         if k == 2:
